@@ -590,3 +590,213 @@ Proof.
   cbv zeta. eexists. eexists. split; [vm_compute; reflexivity|]. split; [vm_compute; reflexivity|].
   repeat split; vm_compute; reflexivity.
 Qed.
+
+(* ---------- validator slash (unbonding entries) keeps the two worlds related ---------- *)
+Section SumByValidator.
+  Variable G : Z -> list ubd_entry -> Z.      (* depends on the validator and the entries, not on the delegator *)
+  Let g (kv : Z * Z * ubd_rec) : Z := G (snd (fst kv)) (u_entries (snd kv)).
+  Let sel_d (a : Z) (kv : Z * Z * ubd_rec) : bool := fst (fst kv) =? a.
+
+  Lemma sum_filter_lookup : forall a a' (f : ubd_rec -> ubd_rec) (m m' : list (Z * Z * ubd_rec)),
+    NoDup (map fst m) -> NoDup (map fst m') -> (forall u, u_entries (f u) = u_entries u) ->
+    (forall v, sget k2_eqb (a', v) m' = option_map f (sget k2_eqb (a, v) m)) ->
+    sumZ g (filter (sel_d a') m') = sumZ g (filter (sel_d a) m).
+  Proof.
+    intros a a' f m m' N N' Fe L.
+    set (ren := fun kv : Z * Z * ubd_rec => ((a', snd (fst kv)), f (snd kv))).
+    set (A := filter (sel_d a) m). set (A' := filter (sel_d a') m').
+    assert (P : Permutation (map ren A) A').
+    { apply NoDup_Permutation.
+      - apply (NoDup_map_inv fst). rewrite map_map. unfold ren. cbn [fst].
+        assert (NA : NoDup (map fst A)) by (apply filter_nodup_keys; exact N).
+        assert (KA : forall kv, In kv A -> fst (fst kv) = a).
+        { intros kv I. apply filter_In in I. destruct I as [_ I]. apply Z.eqb_eq in I. exact I. }
+        clearbody A. induction A as [|kv A IH]; [constructor|]. cbn. inversion NA as [|? ? X Y]. subst. constructor.
+        + intros I. apply X. apply in_map_iff in I. destruct I as [kv' [E I]]. apply in_map_iff. exists kv'. split; [|exact I].
+          inversion E as [E2]. destruct kv as [[d r] u], kv' as [[d' r'] u']. cbn in *.
+          pose proof (KA _ (or_introl eq_refl)) as K1. pose proof (KA _ (or_intror I)) as K2. cbn in K1, K2. congruence.
+        + apply IH; [exact Y|]. intros kv' I. apply KA. right. exact I.
+      - apply (NoDup_map_inv fst). apply filter_nodup_keys. exact N'.
+      - intros [[d r] u]. split.
+        + intros I. apply in_map_iff in I. destruct I as [[[d0 r0] u0] [E I]]. unfold ren in E. cbn in E. inversion E. subst.
+          apply filter_In in I. destruct I as [I C]. unfold sel_d in C. cbn in C. apply Z.eqb_eq in C. subst d0.
+          apply filter_In. split; [|unfold sel_d; cbn; apply Z.eqb_refl].
+          apply (sget_in k2_eqb k2_eqb_ok). rewrite L. rewrite (in_sget_nodup k2_eqb k2_eqb_ok _ _ _ N I). reflexivity.
+        + intros I. apply filter_In in I. destruct I as [I C]. unfold sel_d in C. cbn in C. apply Z.eqb_eq in C. subst d.
+          pose proof (in_sget_nodup k2_eqb k2_eqb_ok _ _ _ N' I) as Gt. rewrite L in Gt.
+          destruct (sget k2_eqb (a, r) m) as [u0|] eqn:G0; [|discriminate]. cbn in Gt. inversion Gt. subst u.
+          apply in_map_iff. exists ((a, r), u0). split; [reflexivity|]. apply filter_In. split; [|unfold sel_d; cbn; apply Z.eqb_refl].
+          apply (sget_in k2_eqb k2_eqb_ok). exact G0. }
+    rewrite <- (sumZ_perm _ _ _ P), sumZ_map. apply sumZ_ext. intros kv _. unfold g, ren. cbn [fst snd]. rewrite Fe. reflexivity.
+  Qed.
+
+  Lemma sum_filter_none : forall a (m : list (Z * Z * ubd_rec)), (forall v, sget k2_eqb (a, v) m = None) ->
+    sumZ g (filter (sel_d a) m) = 0.
+  Proof.
+    intros a m H. assert (E : filter (sel_d a) m = []); [|rewrite E; reflexivity].
+    induction m as [|[[d r] u] m IH]; [reflexivity|]. cbn [filter]. unfold sel_d at 1. cbn [fst].
+    destruct (Z.eqb_spec d a) as [->|N].
+    - specialize (H r). cbn in H. unfold k2_eqb, pkeqb in H. cbn in H. rewrite !Z.eqb_refl in H. discriminate.
+    - apply IH. intros v. specialize (H v). cbn in H. unfold k2_eqb, pkeqb in H. cbn [fst snd] in H.
+      replace (a =? d) with false in H by (symmetry; apply Z.eqb_neq; congruence). exact H.
+  Qed.
+
+  (* the delegators other than the pair: same records on both sides *)
+  Lemma sum_filter_others : forall from to (m m' : list (Z * Z * ubd_rec)),
+    NoDup (map fst m) -> NoDup (map fst m') ->
+    (forall a v, a <> from -> a <> to -> sget k2_eqb (a, v) m' = sget k2_eqb (a, v) m) ->
+    sumZ g (filter (fun kv => negb (sel_d from kv) && negb (sel_d to kv)) m')
+    = sumZ g (filter (fun kv => negb (sel_d from kv) && negb (sel_d to kv)) m).
+  Proof.
+    intros from to m m' N N' L. apply sumZ_perm. apply NoDup_Permutation.
+    - apply (NoDup_map_inv fst). apply filter_nodup_keys. exact N'.
+    - apply (NoDup_map_inv fst). apply filter_nodup_keys. exact N.
+    - intros [[d r] u]. rewrite !filter_In. unfold sel_d. cbn [fst].
+      split; intros [I C]; (split; [|exact C]); apply andb_true_iff in C; destruct C as [C1 C2];
+        apply negb_true_iff in C1, C2; apply Z.eqb_neq in C1, C2; apply (sget_in k2_eqb k2_eqb_ok).
+      + rewrite <- (L d r C1 C2). apply (in_sget_nodup k2_eqb k2_eqb_ok _ _ _ N' I).
+      + rewrite (L d r C1 C2). apply (in_sget_nodup k2_eqb k2_eqb_ok _ _ _ N I).
+  Qed.
+
+  Lemma sum_three_way : forall from to (m : list (Z * Z * ubd_rec)), from <> to ->
+    sumZ g m = sumZ g (filter (sel_d from) m) + sumZ g (filter (sel_d to) m)
+               + sumZ g (filter (fun kv => negb (sel_d from kv) && negb (sel_d to kv)) m).
+  Proof.
+    intros from to m Hft. induction m as [|[[d r] u] m IH]; [reflexivity|]. rewrite sumZ_cons, IH. cbn [filter].
+    assert (Hs : forall a, sel_d a (d, r, u) = (d =? a)) by reflexivity. rewrite !Hs.
+    destruct (Z.eqb_spec d from) as [->|N1].
+    - replace (from =? to) with false by (symmetry; apply Z.eqb_neq; exact Hft). cbn [negb andb]. rewrite sumZ_cons. lia.
+    - destruct (Z.eqb_spec d to) as [->|N2]; cbn [negb andb]; rewrite sumZ_cons; lia.
+  Qed.
+
+  Lemma sum_sim : forall from to s s', from <> to -> sim from to s s' ->
+    sumZ g (ubds (stake s')) = sumZ g (ubds (stake s)).
+  Proof.
+    intros from to s s' Hft S. pose proof (sm_wf _ _ _ _ S) as W. pose proof (sm_wf' _ _ _ _ S) as W'.
+    rewrite (sum_three_way from to (ubds (stake s')) Hft), (sum_three_way from to (ubds (stake s)) Hft).
+    rewrite (sum_filter_none from (ubds (stake s'))).
+    2:{ intros v. change (sget k2_eqb (from, v) (ubds (stake s'))) with (ubd_of s' from v). rewrite (sm_ubd _ _ _ _ S). apply sel_from. exact Hft. }
+    rewrite (sum_filter_none to (ubds (stake s))).
+    2:{ intros v. apply (proj2 (proj2 (sm_clean _ _ _ _ S v))). }
+    rewrite (sum_filter_lookup from to (to_ubd to) (ubds (stake s)) (ubds (stake s')) (wf_ubds s W) (wf_ubds s' W')).
+    2:{ reflexivity. }
+    2:{ intros v. change (sget k2_eqb (to, v) (ubds (stake s'))) with (ubd_of s' to v). rewrite (sm_ubd _ _ _ _ S). apply sel_to. }
+    rewrite (sum_filter_others from to (ubds (stake s)) (ubds (stake s')) (wf_ubds s W) (wf_ubds s' W')).
+    2:{ intros a v N1 N2. change (sget k2_eqb (a, v) (ubds (stake s'))) with (ubd_of s' a v). rewrite (sm_ubd _ _ _ _ S). apply sel_other; assumption. }
+    lia.
+  Qed.
+End SumByValidator.
+
+Lemma sget_map_kv {V} (phi : Z * Z -> V -> V) : forall k (m : list (Z * Z * V)),
+  sget k2_eqb k (map (fun kv => (fst kv, phi (fst kv) (snd kv))) m) = option_map (phi k) (sget k2_eqb k m).
+Proof.
+  intros k m. induction m as [|[k' x] m IH]; [reflexivity|]. cbn [map sget fst snd].
+  destruct (k2_eqb k k') eqn:E; [apply k2_eqb_ok in E; subst; reflexivity | exact IH].
+Qed.
+
+Definition slash_phi (nw v ih fr : Z) (k : Z * Z) (u : ubd_rec) : ubd_rec := if snd k =? v then slash_rec nw ih fr u else u.
+Definition slash_G (nw v ih fr : Z) (w : Z) (es : list ubd_entry) : Z :=
+  if w =? v then sum_bal es - sum_bal (map (slash_entry nw ih fr) es) else 0.
+
+Lemma slash_entry_time : forall nw ih fr e, ue_time (slash_entry nw ih fr e) = ue_time e.
+Proof. intros. unfold slash_entry. destruct ((ue_height e <? ih) || ((ue_time e <=? nw) && (ue_hold e <=? 0))); reflexivity. Qed.
+
+Lemma slash_facts : forall s v ih fr,
+  let t := slash_ubds s v ih fr in
+  ubds (stake t) = map (fun kv => (fst kv, slash_phi (now s) v ih fr (fst kv) (snd kv))) (ubds (stake s)) /\
+  (forall b d, bal_of t b d = bal_of s b d +
+     (if at2 b d (pool_nb (cfg s)) (bond_denom (cfg s))
+      then - sumZ (fun kv : Z * Z * ubd_rec => slash_G (now s) v ih fr (snd (fst kv)) (u_entries (snd kv))) (ubds (stake s)) else 0)) /\
+  (NoDup (map fst (bal s)) -> NoDup (map fst (bal t))) /\
+  start t = start s /\ dels (stake t) = dels (stake s) /\ ubdq (stake t) = ubdq (stake s) /\ red_same s t /\
+  cfg t = cfg s /\ now t = now s /\ height t = height s.
+Proof.
+  intros s v ih fr. unfold slash_ubds.
+  set (k := stake s). set (s0 := set_stake s (set_ubd k _ (idx33 k) (ubdq k))).
+  set (x := - fold_right _ 0 (ubds k)).
+  destruct (credit_keeps (pool_nb (cfg s)) (bond_denom (cfg s)) x s0) as (Ks & Kk & Kc & Kn & Kh & _).
+  repeat split.
+  - cbn zeta. rewrite Kk. unfold s0. cbn [stake set_stake set_ubd ubds]. apply map_ext. intros [kk u]. unfold slash_phi. cbn [fst snd].
+    destruct (snd kk =? v); reflexivity.
+  - intros b d. cbn zeta. rewrite bal_of_credit. unfold s0 at 1. unfold bal_of at 1. cbn [bal set_stake]. fold (bal_of s b d).
+    unfold s0. cbn [cfg set_stake]. destruct (at2 b d (pool_nb (cfg s)) (bond_denom (cfg s))); [|reflexivity].
+    f_equal.
+  - intros N. apply credit_bal_nodup. exact N.
+  - cbn zeta. rewrite Ks. reflexivity.
+  - cbn zeta. rewrite Kk. reflexivity.
+  - cbn zeta. rewrite Kk. reflexivity.
+  - cbn zeta. rewrite Kk. reflexivity.
+  - cbn zeta. rewrite Kk. reflexivity.
+  - cbn zeta. rewrite Kk. reflexivity.
+  - cbn zeta. rewrite Kc. reflexivity.
+  - cbn zeta. rewrite Kn. reflexivity.
+  - cbn zeta. rewrite Kh. reflexivity.
+Qed.
+
+Lemma slash_wf_qc : forall s v ih fr, wfP s -> qcoverP s ->
+  wfP (slash_ubds s v ih fr) /\ qcoverP (slash_ubds s v ih fr).
+Proof.
+  intros s v ih fr W Q.
+  destruct (slash_facts s v ih fr) as (Eu & _ & Bn & Est & Ed & Euq & (Er & Erq & _) & _).
+  assert (Keys : map fst (ubds (stake (slash_ubds s v ih fr))) = map fst (ubds (stake s))).
+  { rewrite Eu, map_map. reflexivity. }
+  assert (Inv : forall kv, In kv (ubds (stake (slash_ubds s v ih fr))) ->
+            exists u0, In (fst kv, u0) (ubds (stake s)) /\ u_del (snd kv) = u_del u0 /\ u_val (snd kv) = u_val u0 /\
+                       (u_entries (snd kv) = u_entries u0 \/ u_entries (snd kv) = map (slash_entry (now s) ih fr) (u_entries u0))).
+  { intros kv I. rewrite Eu in I. apply in_map_iff in I. destruct I as [[k0 u0] [E I]]. subst kv. cbn [fst snd].
+    exists u0. split; [exact I|]. unfold slash_phi. cbn [snd]. destruct (snd k0 =? v); cbn; auto. }
+  split; constructor.
+  - apply Bn, (wf_bal s W).
+  - rewrite Est. apply (wf_start s W).
+  - rewrite Ed. apply (wf_dels s W).
+  - rewrite Keys. apply (wf_ubds s W).
+  - rewrite Er. apply (wf_reds s W).
+  - intros kv I. rewrite Ed in I. apply (wf_delk s W kv I).
+  - intros kv I. destruct (Inv kv I) as (u0 & I0 & D & Vv & _). rewrite D, Vv. apply (wf_ubdk s W _ I0).
+  - intros kv I. rewrite Er in I. apply (wf_redk s W kv I).
+  - intros k0 I. rewrite Est in I. rewrite Ed. apply (wf_startdel s W k0 I).
+  - intros kv e I E. unfold ubd_slice. rewrite Euq. destruct (Inv kv I) as (u0 & I0 & _ & _ & [En|En]); rewrite En in E.
+    + apply (qc_ubd s Q _ e I0 E).
+    + apply in_map_iff in E. destruct E as [e0 [<- E0]]. rewrite slash_entry_time. apply (qc_ubd s Q _ e0 I0 E0).
+  - intros kv e I E. rewrite Er in I. unfold red_slice. rewrite Erq. apply (qc_red s Q kv e I E).
+  - intros kv I. destruct (Inv kv I) as (u0 & I0 & _ & _ & [En|En]); rewrite En; pose proof (qc_ubd_ne s Q _ I0) as NE; cbn in NE.
+    + exact NE.
+    + destruct (u_entries u0); [contradiction | discriminate].
+  - intros kv I. rewrite Er in I. apply (qc_red_ne s Q kv I).
+  - rewrite Euq. apply (qc_ubdq s Q).
+  - rewrite Erq. apply (qc_redq s Q).
+Qed.
+
+Theorem sim2_slash : forall from to s s' v ih fr,
+  from <> to -> pool_nb (cfg s) <> from -> pool_nb (cfg s) <> to ->
+  sim2 from to s s' -> sim2 from to (slash_ubds s v ih fr) (slash_ubds s' v ih fr).
+Proof.
+  intros from to s s' v ih fr Hft Npf Npt [S R].
+  destruct (slash_facts s v ih fr) as (Eu & Eb & _ & Est & Ed & Euq & Rs & Ec & En & Eh).
+  destruct (slash_facts s' v ih fr) as (Eu' & Eb' & _ & Est' & Ed' & Euq' & Rs' & Ec' & En' & Eh').
+  destruct (slash_wf_qc s v ih fr (sm_wf _ _ _ _ S) (sm_qc _ _ _ _ S)) as [Wt Qt].
+  destruct (slash_wf_qc s' v ih fr (sm_wf' _ _ _ _ S) (sm_qc' _ _ _ _ S)) as [Wt' Qt'].
+  pose proof (sm_now _ _ _ _ S) as Nw. pose proof (sm_cfg _ _ _ _ S) as Cf. pose proof (sm_height _ _ _ _ S) as Hh.
+  assert (Lu : forall t0 b w, ubd_of (slash_ubds t0 v ih fr) b w = option_map (slash_phi (now t0) v ih fr (b, w)) (ubd_of t0 b w)).
+  { intros t0 b w. unfold ubd_of. rewrite (proj1 (slash_facts t0 v ih fr)). apply sget_map_kv. }
+  split; [|apply (simR_same from to s s' _ _ R Rs Rs')].
+  constructor; try assumption.
+  - congruence.
+  - congruence.
+  - congruence.
+  - intros w. unfold del_of, start_of. rewrite Ed, Est. destruct (sm_clean _ _ _ _ S w) as (A & B & C).
+    split; [exact A|]. split; [exact B|]. rewrite Lu, C. reflexivity.
+  - intros d. rewrite Eb. unfold at2. replace (to =? pool_nb (cfg s)) with false by (symmetry; apply Z.eqb_neq; congruence).
+    cbn [andb]. pose proof (sm_nonneg _ _ _ _ S d). lia.
+  - intros b d. rewrite Eb', !Eb, (sm_bal _ _ _ _ S), Cf, Nw.
+    rewrite (sum_sim (slash_G (now s) v ih fr) from to s s' Hft S). unfold sel, at2.
+    set (p := pool_nb (cfg s)). assert (Np1 : p <> from) by exact Npf. assert (Np2 : p <> to) by exact Npt. clearbody p.
+    repeat match goal with |- context [?x =? ?y] => destruct (Z.eqb_spec x y); subst end; cbn [andb]; try lia; try congruence.
+  - intros b w. unfold del_of. rewrite Ed, Ed'. apply (sm_del _ _ _ _ S).
+  - intros b w. unfold start_of. rewrite Est, Est'. apply (sm_start _ _ _ _ S).
+  - intros b w. rewrite !Lu, (sm_ubd _ _ _ _ S), Nw. unfold sel, slash_phi. cbn [snd].
+    destruct (b =? to).
+    + destruct (ubd_of s from w); [|reflexivity]. cbn. destruct (w =? v); reflexivity.
+    + destruct (b =? from); reflexivity.
+  - intros tau. unfold ubd_slice. rewrite Euq, Euq'. apply (sm_q _ _ _ _ S).
+Qed.
